@@ -428,6 +428,24 @@ def check_unique_id(spec: dict) -> dict:
 
 # --------------------------------------------------------------------------- gene ids
 
+def _gene_loc(loc: dict):
+    """ like vlib.build.to_loc, plus "fuzzy": [start_is_partial, end_is_partial] -> BeforePosition on the lowest
+        start / AfterPosition on the highest end (GenBank's <12..48 / 12..>48) """
+    from Bio.SeqFeature import AfterPosition, BeforePosition
+    from antismash.common.secmet.locations import CompoundLocation, FeatureLocation
+    fuzzy = loc.get("fuzzy") or [False, False]
+    low = min(p[0] for p in loc["parts"])
+    high = max(p[1] for p in loc["parts"])
+    parts = []
+    for start, end in loc["parts"]:
+        first = BeforePosition(start) if fuzzy[0] and start == low else start
+        last = AfterPosition(end) if fuzzy[1] and end == high else end
+        parts.append(FeatureLocation(first, last, loc["strand"]))
+    if len(parts) == 1:
+        return parts[0]
+    return CompoundLocation(parts, operator=loc.get("operator", "join"))
+
+
 def _resolve_features(spec: dict) -> list:
     """ fills in names that refer to another feature's location checksum (tag_<crc32 of str(location)>),
         the form add_cds_feature documents for renamed splice variants """
@@ -437,7 +455,7 @@ def _resolve_features(spec: dict) -> list:
         target = feature.get("crc_of")
         if target is not None and feature.get("locus_tag"):
             other = spec["features"][target % len(spec["features"])]
-            checksum = zlib.crc32(str(to_loc(other["loc"])).encode("utf-8"))
+            checksum = zlib.crc32(str(_gene_loc(other["loc"])).encode("utf-8"))
             item["locus_tag"] = f"{feature['locus_tag']}_{checksum:x}"
         resolved.append(item)
     return resolved
@@ -448,19 +466,21 @@ def _input_name(feature: dict, via: str) -> str:
         character replacement is the code's own (only its result is judged, by gene_illegal) """
     from antismash.common.secmet.features import CDSFeature
     locus = feature.get("locus_tag")
-    if via == "biopython" and locus:
+    if via in ("biopython", "parse") and locus:
         locus = locus.replace(" ", "") or None     # documented: line-break spaces are removed from locus tags
     if not (locus or feature.get("gene") or feature.get("protein_id")):
         start = min(p[0] for p in feature["loc"]["parts"])
         end = max(p[1] for p in feature["loc"]["parts"])
         return f"cds{start}_{end}"
-    lone = CDSFeature(to_loc(feature["loc"]), translation=_translation(feature), locus_tag=locus,
+    lone = CDSFeature(_gene_loc(feature["loc"]), translation=_translation(feature), locus_tag=locus,
                       gene=feature.get("gene"), protein_id=feature.get("protein_id"))
     return lone.get_name()
 
 
 def _loc_key(feature: dict) -> tuple:
-    return (tuple(map(tuple, feature["loc"]["parts"])), feature["loc"]["strand"])
+    """ what the record treats as "the same location": coordinates, strand and the partial-boundary markers """
+    return (tuple(map(tuple, feature["loc"]["parts"])), feature["loc"]["strand"],
+            tuple(bool(x) for x in (feature["loc"].get("fuzzy") or [False, False])))
 
 
 def _translation(feature: dict) -> str:
@@ -475,7 +495,7 @@ def _checksum_name_taken(cds_specs: list, via: str) -> bool:
     for feature in cds_specs:
         if not feature.get("locus_tag"):
             continue
-        checksum = zlib.crc32(str(to_loc(feature["loc"])).encode("utf-8"))
+        checksum = zlib.crc32(str(_gene_loc(feature["loc"])).encode("utf-8"))
         if f"{_input_name(feature, via)}_{checksum:x}" in names:
             return True
     return False
@@ -518,12 +538,22 @@ def check_genes(spec: dict) -> dict:
     if any(f.get("crc_of") is not None for f in cds_specs):
         classes.append("checksum_named")
     nontrivial = dup_name or dup_loc
+    largest_group = max((model_names.count(name) for name in model_names), default=0)
+    if largest_group >= 3:
+        classes.append("same_name_group_3plus")
+    if any(any(f["loc"].get("fuzzy") or []) for f in cds_specs):
+        classes.append("partial_boundary")
+    plain_keys = [(_loc_key(f)[:2], name) for f, name in zip(cds_specs, model_names)]
+    if len(set(plain_keys)) < len({(_loc_key(f), name) for f, name in zip(cds_specs, model_names)}):
+        classes.append("same_name_differs_only_in_partial_marker")
 
     guard_possible = dup_name and _checksum_name_taken(cds_specs, via)
     if guard_possible:
         classes.append("renamed_form_taken")
     if via == "add":
         outcome = _genes_by_adding(spec, features, classes, guard_possible)
+    elif via == "parse":
+        outcome = _genes_by_parsing(spec, features, dup_name or dup_loc, classes, guard_possible)
     else:
         outcome = _genes_by_conversion(spec, features, dup_name or dup_loc, classes, guard_possible)
     classes.append(outcome)
@@ -540,7 +570,7 @@ def _genes_by_adding(spec: dict, features: list, classes: list, guard_possible: 
     seen_locs: set = set()
     rejected = renamed = 0
     for feature in features:
-        location = to_loc(feature["loc"])
+        location = _gene_loc(feature["loc"])
         if feature["type"] == "gene":
             record.add_gene(Gene(location, locus_tag=feature.get("locus_tag"), gene_name=feature.get("gene")))
             continue
@@ -585,26 +615,86 @@ def _genes_by_adding(spec: dict, features: list, classes: list, guard_possible: 
     return "out_rejected" if rejected else ("out_renamed" if renamed else "out_plain")
 
 
-def _genes_by_conversion(spec: dict, features: list, duplicate: bool, classes: list,
-                         guard_possible: bool) -> str:
+def _bio_record(length: int, features: list, identifier: str = "rec1"):
     from Bio.Seq import Seq
     from Bio.SeqFeature import SeqFeature
     from Bio.SeqRecord import SeqRecord
-    from antismash.common.secmet import Record
-    from antismash.common.secmet.errors import SecmetInvalidInputError
     unit = "ACGTTGCAAGCTTCGA"
-    seq = (unit * (spec["L"] // len(unit) + 1))[:spec["L"]]
+    seq = (unit * (length // len(unit) + 1))[:length]
     bio_features = []
     for feature in features:
-        bio = SeqFeature(to_loc(feature["loc"]), type=feature["type"])
+        bio = SeqFeature(_gene_loc(feature["loc"]), type=feature["type"])
         for key in ("locus_tag", "gene", "protein_id"):
             if feature.get(key) and not (feature["type"] == "gene" and key == "protein_id"):
                 bio.qualifiers[key] = [feature[key]]
         if feature["type"] == "CDS":
             bio.qualifiers["translation"] = [_translation(feature)]
         bio_features.append(bio)
-    seq_record = SeqRecord(Seq(seq), id="rec1", name="rec1", annotations={"molecule_type": "DNA"},
-                           features=bio_features)
+    return SeqRecord(Seq(seq), id=identifier, name=identifier, description="verif",
+                     annotations={"molecule_type": "DNA", "topology": "linear"}, features=bio_features)
+
+
+def _genes_by_parsing(spec: dict, features: list, duplicate: bool, classes: list, guard_possible: bool) -> str:
+    """ the record is written as GenBank next to a valid bystander record and read with the real
+        parse_input_sequence(); a rejection must be the documented one and must not take the bystander along
+        when invalid records are to be ignored """
+    import os
+    import tempfile
+    from Bio import SeqIO
+    from antismash.common import record_processing
+    from antismash.common.errors import AntismashInputError
+    ignore = bool(spec.get("ignore_invalid"))
+    classes.append("ignore_invalid" if ignore else "strict")
+    bystander = _bio_record(60, [{"type": "CDS", "loc": {"parts": [[3, 30]], "strand": 1}, "locus_tag": "other1"}],
+                            "bystander")
+    target = _bio_record(spec["L"], features, "target")
+    records = [target, bystander] if spec.get("target_first", True) else [bystander, target]
+    handle = tempfile.NamedTemporaryFile(mode="w", suffix=".gbk", prefix="verif_c16_", delete=False)
+    try:
+        with handle:
+            SeqIO.write(records, handle, "genbank")
+        try:
+            parsed = record_processing.parse_input_sequence(handle.name, taxon="bacteria",
+                                                            ignore_invalid_records=ignore)
+        except AntismashInputError as err:
+            if ignore:
+                raise Violation("gene_rejection_not_clean", {"message": str(err)[:200], "ignore_invalid_records": True,
+                                                             "problem": "the valid other record was lost as well"})
+            if not duplicate:
+                raise Violation("gene_reject_without_duplicate", {"message": str(err)[:200]})
+            return "out_rejected"
+        except AssertionError:
+            if not guard_possible:
+                raise Violation("gene_total", {"exception": "AssertionError", "duplicate": duplicate, "via": "parse"})
+            classes.append("refused_by_assertion")
+            return "out_rejected"
+        except Exception as err:  # pylint: disable=broad-except
+            raise Violation("gene_total", {"exception": type(err).__name__, "message": str(err)[:200],
+                                           "duplicate": duplicate, "via": "parse"})
+    finally:
+        os.unlink(handle.name)
+    by_id = {record.id: record for record in parsed}
+    if "bystander" not in by_id or len(parsed) != len(by_id):
+        raise Violation("gene_rejection_not_clean", {"returned": [record.id for record in parsed]})
+    if "target" not in by_id:
+        if not ignore:
+            raise Violation("gene_lost", {"problem": "record dropped without an error", "returned": sorted(by_id)})
+        if not duplicate:
+            raise Violation("gene_reject_without_duplicate", {"message": "record skipped"})
+        return "out_rejected"
+    record = by_id["target"]
+    count = sum(1 for f in features if f["type"] == "CDS")
+    _judge_final_genes(record, count, "parse")
+    names = sorted(cds.get_name() for cds in record.get_cds_features())
+    model = sorted(_input_name(f, "parse") for f in features if f["type"] == "CDS")
+    return "out_plain" if names == model else "out_renamed"
+
+
+def _genes_by_conversion(spec: dict, features: list, duplicate: bool, classes: list,
+                         guard_possible: bool) -> str:
+    from antismash.common.secmet import Record
+    from antismash.common.secmet.errors import SecmetInvalidInputError
+    seq_record = _bio_record(spec["L"], features)
     try:
         record = Record.from_biopython(seq_record, taxon="bacteria")
     except SecmetInvalidInputError as err:
@@ -634,6 +724,7 @@ SUBCHECKS = {
     "records": check_records,
     "length": check_length,
     "genes": check_genes,
+    "genes_enum": check_genes,
     "records_enum": check_records,
     "length_enum": check_length,
     "crowd_enum": check_crowd,
@@ -1032,6 +1123,7 @@ _GENE_ILLEGAL = sorted(ILLEGAL_GENE - {"\r", "\n", "\t"}) + ["\t"]
 
 @st.composite
 def gene_specs(draw):
+    via = draw(st.sampled_from(["add", "add", "biopython", "biopython", "parse"]))
     length = draw(st.integers(30, 400))
     layout = draw(gen.gene_layout(length, False, max_genes=7, multi_exon=True, allow_span=False))
     pool = draw(st.lists(st.text(alphabet="abAB12_", min_size=1, max_size=5), min_size=1, max_size=3))
@@ -1046,13 +1138,18 @@ def gene_specs(draw):
                        "strand": other["loc"]["strand"] if draw(st.integers(0, 2)) else -other["loc"]["strand"]}
                 if loc["strand"] != other["loc"]["strand"]:
                     loc["parts"] = list(reversed(loc["parts"]))
+                # the same coordinates with a boundary marked partial (<12..48 / 12..>48) is another location
+                loc["fuzzy"] = draw(st.sampled_from([[False, False], [True, False], [False, True], [True, True]]))
+        elif draw(st.integers(0, 7)) == 0:
+            loc["fuzzy"] = draw(st.sampled_from([[True, False], [False, True], [True, True]]))
         name_kind = draw(st.sampled_from(["pool", "pool", "variant", "variant", "fresh", "checksum"]))
         base = draw(st.sampled_from(pool))
         crc_of = None
         if name_kind == "pool":
             name = base
         elif name_kind == "variant":
-            sep = draw(st.sampled_from(_GENE_ILLEGAL + ["_", "_"]))
+            # (a GenBank file cannot carry quotes/tabs in a qualifier unharmed: plain separators when parsing)
+            sep = draw(st.sampled_from(_GENE_ILLEGAL + ["_", "_"] if via != "parse" else ["_", "-", "."]))
             pos = draw(st.integers(0, len(base)))
             name = base[:pos] + sep + base[pos:]
         elif name_kind == "fresh":
@@ -1077,9 +1174,60 @@ def gene_specs(draw):
                              "gene": None if feature["locus_tag"] else gene_name, "protein_id": None,
                              "crc_of": None})
         features.append(feature)
+    # 1 case in 3: a group of 3-5 overlapping CDS sharing one locus tag (splice variants), among them partial-
+    # boundary variants of one location, which must all end up with different names (or be refused cleanly)
+    cds_features = [f for f in features if f["type"] == "CDS"]
+    if cds_features and draw(st.integers(0, 2)) == 0:
+        anchor = draw(st.sampled_from(cds_features))
+        tag = anchor["locus_tag"] or anchor["gene"] or anchor["protein_id"]
+        anchor["locus_tag"], anchor["crc_of"] = tag, None
+        position = next(i for i, f in enumerate(features) if f is anchor) + 1
+        flags = [[False, False], [True, False], [False, True], [True, True]]
+        variants = draw(st.lists(st.sampled_from(flags), min_size=2, max_size=4))
+        for fuzzy in variants:
+            parts = [list(p) for p in anchor["loc"]["parts"]]
+            low = min(range(len(parts)), key=lambda i: parts[i][0])
+            high = max(range(len(parts)), key=lambda i: parts[i][1])
+            shape = draw(st.sampled_from(["same", "same", "same", "shorter_end", "later_start"]))
+            if shape == "shorter_end" and parts[high][1] - parts[high][0] > 5:
+                parts[high][1] -= 3
+            elif shape == "later_start" and parts[low][1] - parts[low][0] > 5:
+                parts[low][0] += 3
+            member = {"type": "CDS", "loc": {"parts": parts, "strand": anchor["loc"]["strand"], "fuzzy": list(fuzzy)},
+                      "locus_tag": tag, "gene": None, "protein_id": None, "crc_of": None}
+            features.insert(position, member)
+            position += 1
     if draw(st.integers(0, 3)) == 0:
         features = draw(st.permutations(features))
-    return {"L": length, "via": draw(st.sampled_from(["add", "biopython"])), "features": list(features)}
+    return {"L": length, "via": via, "ignore_invalid": draw(st.booleans()), "target_first": draw(st.booleans()),
+            "features": list(features)}
+
+
+def enum_gene_variants(thorough: bool = False):
+    """ one locus tag on 3 (thorough: also 4) overlapping CDS: a longer anchor and every ordered choice of
+        partial-boundary variants {plain, <start, end>, both} of one location; simple and two-exon, both strands,
+        through add_cds_feature, Record.from_biopython and parse_input_sequence (strict and ignoring invalid) """
+    import itertools
+    flags = [[False, False], [True, False], [False, True], [True, True]]
+    shapes = [([[12, 60]], [[12, 48]]), ([[12, 30], [36, 60]], [[12, 30], [36, 48]])]
+
+    def cases():
+        for via, ignore in (("add", False), ("biopython", False), ("parse", False), ("parse", True)):
+            for anchor_parts, variant_parts in shapes:
+                for strand in (1, -1):
+                    for size in ((2, 3) if thorough else (2,)):
+                        for combo in itertools.product(flags, repeat=size):
+                            order = (lambda parts: list(reversed(parts)) if strand == -1 else parts)
+                            features = [{"type": "CDS", "loc": {"parts": order(anchor_parts), "strand": strand},
+                                         "locus_tag": "geneT", "gene": None, "protein_id": None, "crc_of": None}]
+                            for fuzzy in combo:
+                                features.append({"type": "CDS", "loc": {"parts": order(variant_parts), "strand": strand,
+                                                                        "fuzzy": list(fuzzy)},
+                                                 "locus_tag": "geneT", "gene": None, "protein_id": None,
+                                                 "crc_of": None})
+                            yield {"L": 90, "via": via, "ignore_invalid": ignore, "target_first": True,
+                                   "features": features}
+    return cases
 
 
 def run(ctx) -> None:
@@ -1089,6 +1237,7 @@ def run(ctx) -> None:
     ctx.enum("records_enum", enum_unicode_lists(), shards=ctx.pick(4, 8))
     ctx.enum("crowd_enum", enum_crowds(ctx.thorough), shards=ctx.pick(8, 16))
     ctx.enum("unique_id_enum", enum_unique_ids(), shards=ctx.pick(4, 8))
+    ctx.enum("genes_enum", enum_gene_variants(ctx.thorough), shards=ctx.pick(4, 8))
     ctx.hyp("unique_id", unique_id_specs(), max_examples=ctx.pick(600, 8000), shards=ctx.pick(4, 8))
     ctx.hyp("records", id_list_specs("collide"), max_examples=ctx.pick(3000, 60000), shards=shards)
     ctx.hyp("length", id_list_specs("length"), max_examples=ctx.pick(1500, 30000), shards=shards)
